@@ -1498,17 +1498,25 @@ func (ls *LState) NewThread() (*LState, context.CancelFunc) {
 	thread.Env = ls.Env
 	var f context.CancelFunc = nil
 	if ls.ctx != nil {
-		thread.mainLoop = mainLoopWithContext
-		parent := ls.ctx
-		if ls.ctxCancelFn != nil && ls.G.MainThread != nil && ls.G.MainThread.ctx != nil {
-			// ls is itself a coroutine: its own context is cancelled when it dies (kill), but a
-			// coroutine it creates may outlive it and must only stop when the state's context is done
-			parent = ls.G.MainThread.ctx
-		}
-		thread.ctx, f = context.WithCancel(parent)
-		thread.ctxCancelFn = f
+		f = thread.inheritContext(ls)
 	}
 	return thread, f
+}
+
+// inheritContext puts the thread ls under a context derived from the context of from, the thread
+// that creates it or, if ls was made when there was no context yet, first resumes it afterwards.
+func (ls *LState) inheritContext(from *LState) context.CancelFunc {
+	ls.mainLoop = mainLoopWithContext
+	parent := from.ctx
+	if from.ctxCancelFn != nil && from.G.MainThread != nil && from.G.MainThread.ctx != nil {
+		// from is itself a coroutine: its own context is cancelled when it dies (kill), but a
+		// coroutine it creates may outlive it and must only stop when the state's context is done
+		parent = from.G.MainThread.ctx
+	}
+	var f context.CancelFunc
+	ls.ctx, f = context.WithCancel(parent)
+	ls.ctxCancelFn = f
+	return f
 }
 
 func (ls *LState) NewFunctionFromProto(proto *FunctionProto) *LFunction {
